@@ -20,14 +20,21 @@ MOD = "vanilla_header"
 KEYLEN = 40
 
 
-def wiring(ctx, rep, mod, enc_half, dec_half, enc_fn, dec_fn):
+def wiring(ctx, rep, mod, enc_half, dec_half, enc_fn, dec_fn, inline=None):
     """half.encrypt(data) calls the raw op with (data, self.key, &mut self.index, &mut self.prev)
     and `new` stores the (derived) key in the field the raw op reads"""
+    inline = inline or {}
     for half, meth, raw in ((enc_half, "encrypt", enc_fn), (dec_half, "decrypt", dec_fn)):
         fn = "%s::%s" % (half, meth)
         se = ctx.flat.run(fn)
         if se is None:
             rep.violation("wiring", fn, "anchor", "not found")
+            continue
+        if half in inline:
+            # the step is written in the method itself, on its own fields: what is left of the
+            # wiring is that the key it reads is the field `new` fills
+            kf_used = inline[half]
+            rep.check(kf_used is not None and kf_used == key_field(ctx, half), "wiring", fn, "raw-operands", "the per-byte step works on the half's own (key, index, previous value) fields", "%s does not read the key from the field its constructor fills" % fn, se.body.loc())
             continue
         calls = [i for i in se.term_info.values() if i.get("k") == "call"]
         good = len(calls) == 1 and calls[0]["name"] == raw
@@ -69,6 +76,11 @@ def key_field(ctx, half):
     return None
 
 
+def cfg_has_loop(b):
+    import cfg
+    return bool(cfg.back_edges(b))
+
+
 def check(ctx, rep):
     # "the receiver recovers the sender's headers": every entry point of this expansion that
     # feeds bytes to the cipher (typed helpers, Read/Write wrappers, facade) must hand the raw
@@ -82,11 +94,18 @@ def check(ctx, rep):
     dh = MOD + "::decrypt::DecrypterHalf"
     enc_fn = ciphers.raw_callee(ctx, eh + "::encrypt", enc_fn)
     dec_fn = ciphers.raw_callee(ctx, dh + "::decrypt", dec_fn)
-    ciphers.step_rule(ctx, rep, enc_fn, "enc", KEYLEN)
-    ciphers.step_rule(ctx, rep, dec_fn, "dec", KEYLEN)
+    inline = {}
+    for half, meth, raw, direction in ((eh, "encrypt", enc_fn, "enc"), (dh, "decrypt", dec_fn, "dec")):
+        mb = ctx.fb.body(half + "::" + meth)
+        has_local_callee = mb is not None and any(t.get("resolved") in ctx.fb.bodies for _, t in mb.calls())
+        if mb is not None and not has_local_callee and cfg_has_loop(mb):
+            # the per-byte step is written in the half's method itself
+            inline[half] = ciphers.step_rule(ctx, rep, half + "::" + meth, direction, KEYLEN, method_of=half)
+        else:
+            ciphers.step_rule(ctx, rep, raw, direction, KEYLEN)
     ciphers.state_census(ctx, rep, eh, eh + "::new", {eh + "::encrypt"})
     ciphers.state_census(ctx, rep, dh, dh + "::new", {dh + "::decrypt"})
-    wiring(ctx, rep, MOD, eh, dh, enc_fn, dec_fn)
+    wiring(ctx, rep, MOD, eh, dh, enc_fn, dec_fn, inline)
     # new stores the raw session key
     for half in (eh, dh):
         se = ctx.wrap.run(half + "::new")
